@@ -1303,6 +1303,15 @@ def resolve_targets(texts, sc, ex=None):
                 and isinstance(node.args[0], ast.Attribute) and isinstance(node.args[0].value, ast.Name):
             # allof(Class.field): that field of *every* object of the class may change (e.g. lazily cached hashes)
             out.append(("fieldarray", node.args[0].value.id, node.args[0].attr))
+        elif isinstance(node, ast.Call) and isinstance(node.func, ast.Name) and node.func.id == "allof" \
+                and isinstance(node.args[0], ast.Subscript):
+            # allof(Set[Str]) / allof(List[Str]): the contents of *every* set/list object of that element type may change
+            from .core import parse_type
+
+            t = parse_type(ast.unparse(node.args[0]))
+            if not isinstance(t, (TSet, TList)):
+                raise Unsupported(f"modifies target `{text}`")
+            out.append(("contentsarray", t))
         elif isinstance(node, ast.Call) and isinstance(node.func, ast.Name) and node.func.id in ("contents", "fields"):
             base = spec.sv(node.args[0], sc)
             if isinstance(base.t, TOpt):
